@@ -290,3 +290,8 @@ def bec2_faults(vc):
             if not ok(out):
                 bad.append(("textcut", cut, _why(out)))
     vc.prove("damaged=>error-or-original[%s]" % fault, not bad, repr(bad[:3]))
+
+
+# the truncation argument rests on the byte reader's short-read contract (proved under C05, an obligation here too)
+from pyvc.harness import reuse as _reuse  # noqa: E402
+_reuse("C05/BytesReader", "C04/BytesReader.short-read=>error(never-a-short-result)")
